@@ -246,7 +246,7 @@ def run_mc(pid, tier, workdir, export_depth=None):
             consts["ExportDepth"] = export_depth
             consts["ExportEvery"] = every or mcconf.EXPORT_EVERY.get(tier, 53)
         cfg = mcconf.cfg_text(consts)
-        limit = int(os.environ.get("VERIF_MC_BUDGET_S", "150" if tier == "quick" else "1500"))
+        limit = int(os.environ.get("VERIF_MC_BUDGET_S", "100" if tier == "quick" else "480"))
         res = run_tlc(os.path.join(workdir, "mc%d" % i), SPEC, "EngineConf", cfg, workers=TLC_WORKERS, timeout=limit, java_opts="-Xss1g -Xmx16g", soft=True)
         text = res["text"]
         for name, h in tla_json_lines(text, "CEX"):
@@ -597,6 +597,56 @@ def tlc_framing(workdir, tier):
     return path, res
 
 
+def tlc_encoder(workdir):
+    """EncoderSteps.tla: fragmentation independence of the resumable encoder over every capacity sequence; exports capacity sequences."""
+    def cfg(defects):
+        return ("SPECIFICATION Spec\nCONSTANTS\n  Packets <- Packets_Small\n  Caps = {4, 5, 7, 9, 32}\n  Defects = {%s}\nVIEW View\n"
+                "INVARIANT Prefix\nINVARIANT Whole\nINVARIANT Prompt\nINVARIANT Progress\nINVARIANT Export\nCHECK_DEADLOCK FALSE\n") % ", ".join('"%s"' % d for d in defects)
+    main = run_tlc(os.path.join(workdir, "enc-main"), SPEC, "EncoderSteps", cfg([]), workers=4, timeout=900)
+    if not main["ok"]:
+        sys.stdout.write(main["text"][-3000:])
+        raise ToolError("EncoderSteps.tla (repaired behaviour) violates a C02 invariant: the specification and the code must be re-examined")
+    inst = [{"name": "EncoderSteps.tla: every (prefill, capacity) sequence over {4, 5, 7, 9, 32}; Prefix, Whole, Prompt, Progress", "distinct": main.get("distinct", 0), "generated": main.get("generated", 0), "wall_s": main["wall_s"], "ok": True}]
+    for defect, expect in (("empty-tail-not-finished", "Prompt"), ("slice-restarts", "Prefix")):
+        r = run_tlc(os.path.join(workdir, "enc-" + defect[:8]), SPEC, "EncoderSteps", cfg([defect]), workers=2, timeout=600)
+        found = (not r["ok"]) and expect in r["text"]
+        inst.append({"name": "defect switched on: " + defect, "expected_violation": expect, "found": found, "wall_s": r["wall_s"]})
+        if not found:
+            raise ToolError("EncoderSteps.tla no longer exposes the defect '%s'" % defect)
+    path = os.path.join(workdir, "caps.jsonl")
+    with open(path, "w") as f:
+        for _, c in tla_json_lines(main["text"], "CAPS"):
+            f.write(json.dumps(c) + "\n")
+    return path, main, inst
+
+
+def tlc_filters(workdir, tier):
+    """Validation.tla: every token string up to the bound with the specification's verdicts."""
+    cfg = 'SPECIFICATION Spec\nCONSTANTS\n  Tokens = {"a", "/", "+", "#", "$share"}\n  MaxLen = %d\nINVARIANT NamesAreFilters\nCHECK_DEADLOCK FALSE\n' % (6 if tier == "thorough" else 5)
+    res = run_tlc(os.path.join(workdir, "filters"), SPEC, "Validation", cfg, workers=1, timeout=1800)
+    if not res["ok"]:
+        sys.stdout.write(res["text"][-3000:])
+        raise ToolError("Validation.tla failed")
+    path = os.path.join(workdir, "filters.jsonl")
+    with open(path, "w") as f:
+        for _, c in tla_json_lines(res["text"], "FILTER"):
+            f.write(json.dumps(c) + "\n")
+    return path, res
+
+
+def validation_half(pid, tier, seed, workdir, known):
+    """C16: the topic-name / topic-filter grammar of Validation.tla against the crate's validators."""
+    filters, r = tlc_filters(workdir, tier)
+    trace, stats = codec_run(["--filters", filters, "--seed", str(seed)], workdir, "filters")
+    verdict, tlc = trace_check(trace, [pid], os.path.join(workdir, "tc-filters"))
+    breaches = list(verdict["errs"][pid])
+    violations, seen = report_codec(pid, breaches, trace, known)
+    cov = {"states": r.get("distinct", 0), "transitions": r.get("generated", 0), "strings_from_tlc": stats.get("filters", 0), "codec_events": verdict["events"], "breaches": len(breaches),
+           "model_checking": {"instances": [{"name": "Validation.tla: every string over {a, /, +, #, $share} up to length %d with the specification's verdicts (topic name, filter, shared, wildcard)" % (6 if tier == "thorough" else 5),
+                                             "distinct": r.get("distinct", 0), "wall_s": r["wall_s"]}]}}
+    return violations, seen, cov
+
+
 def codec_run(args, workdir, name):
     trace = os.path.join(workdir, name + ".ndjson")
     rc, out, dt = sh([os.path.join(BIN, "codec_run")] + args + ["--out", trace], cwd=workdir, timeout=3000)
@@ -629,7 +679,7 @@ def report_codec(pid, breaches, trace, known):
         with open(path, "w") as f:
             json.dump({"property": pid, "rule": b["rule"], "event": ev, "codec": True}, f)
         if violations <= 5:
-            print("VIOLATION property=%s replay=%s   (rule %s, case %s: %s)" % (pid, path, b["rule"], (ev or {}).get("label"), (ev or {}).get("diff")))
+            print("VIOLATION property=%s replay=%s   (rule %s, case %s: %s)" % (pid, path, b["rule"], (ev or {}).get("label") or (ev or {}).get("text") or (ev or {}).get("src"), (ev or {}).get("diff") or ""))
     return violations, seen
 
 
@@ -647,9 +697,11 @@ def codec_half(pid, tier, seed, workdir, known):
             {"name": "DecoderFraming.tla: every stream of the frame alphabet x every partition into chunks; ChunkingInvariant, OversizeAtHeader, Prompt", "distinct": r2.get("distinct", 0), "generated": r2.get("generated", 0), "wall_s": r2["wall_s"]}]}
     else:
         cases, r1 = tlc_cases(workdir, "out")
-        trace, stats = codec_run(["--cases-out", cases, "--seed", str(seed)], workdir, "codec-out")
-        states, trans = r1.get("distinct", 0), r1.get("generated", 0)
-        cov["model_checking"] = {"instances": [{"name": "CodecCases.tla Dir=out: case analysis of the client-to-server layouts (one state per case)", "distinct": r1.get("distinct", 0), "wall_s": r1["wall_s"]}]}
+        caps, r2, enc_instances = tlc_encoder(workdir)
+        trace, stats = codec_run(["--cases-out", cases, "--caps", caps, "--seed", str(seed)], workdir, "codec-out")
+        states, trans = r1.get("distinct", 0) + r2.get("distinct", 0), r1.get("generated", 0) + r2.get("generated", 0)
+        cov["model_checking"] = {"instances": [{"name": "CodecCases.tla Dir=out: case analysis of the client-to-server layouts (one state per case)", "distinct": r1.get("distinct", 0), "wall_s": r1["wall_s"]}] + enc_instances}
+        cov["capacity_sequences_from_tlc"] = stats.get("capacity_sequences_from_tlc", 0)
     verdict, tlc = trace_check(trace, [pid], os.path.join(workdir, "tc-codec"))
     breaches = list(verdict["errs"][pid])
     violations, seen = report_codec(pid, breaches, trace, known)
@@ -1010,6 +1062,10 @@ def check_engine_property(pid, tier, seed):
     codec_cov = None
     if pid == "C02":
         v3, seen3, codec_cov = codec_half(pid, tier, seed, workdir, known)
+        violations += v3
+        seen += seen3
+    if pid == "C16":
+        v3, seen3, codec_cov = validation_half(pid, tier, seed, workdir, known)
         violations += v3
         seen += seen3
 
